@@ -10,6 +10,7 @@ import (
 	"strconv"
 	"strings"
 	"sync"
+	"time"
 	"unicode/utf8"
 
 	"github.com/jdillenkofer/pithos/internal/storage"
@@ -283,10 +284,11 @@ type xmlListParts struct {
 }
 
 type c06ctx struct {
-	r    *vkit.Run
-	g    *rig
-	mu   sync.Mutex
-	seen map[string]int
+	r     *vkit.Run
+	guard *stallGuard
+	g     *rig
+	mu    sync.Mutex
+	seen  map[string]int
 }
 
 func (c *c06ctx) bucketOf(fx *fixture, lc listCase) string {
@@ -354,10 +356,11 @@ func (c *c06ctx) fetch(fx *fixture, lc listCase, ct *cont) (*pageRes, error) {
 			setOpt(q, "marker", keyMarker)
 		} else {
 			q.Set("list-type", "2")
+			// SDK paginators resend the original parameters (incl. start-after)
+			// together with the continuation token, which takes precedence
+			setOpt(q, "start-after", lc.Marker)
 			if ct != nil {
 				setOpt(q, "continuation-token", ct.Key)
-			} else {
-				setOpt(q, "start-after", lc.Marker)
 			}
 		}
 		var x xmlListBucket
@@ -639,6 +642,10 @@ func (c *c06ctx) runCase(fx *fixture, lc listCase) {
 	fam := familyOf(lc.API)
 	rows := c.rowsFor(fx, lc)
 	prefix, delim := deref(lc.Prefix), deref(lc.Delim)
+	if c.guard != nil {
+		id := c.guard.begin(fmt.Sprintf("C06 key set %d %s prefix=%q delimiter=%q marker=%q page-size=%d", fx.spec.Index, lc.API, prefix, delim, deref(lc.Marker), lc.PageSize))
+		defer c.guard.end(id)
+	}
 	// reference
 	var wantItems []row
 	var wantCPs []string
@@ -1180,6 +1187,7 @@ func runC06(tier, replay string) {
 		workers = 12
 	}
 	stats := &c06Stats{}
+	guard := newStallGuard(r, 120*time.Second)
 	jobs := make(chan int)
 	var wg sync.WaitGroup
 	for w := 0; w < workers; w++ {
@@ -1188,7 +1196,7 @@ func runC06(tier, replay string) {
 			r.Inconclusive("cannot build storage: " + err.Error())
 			continue
 		}
-		c := &c06ctx{r: r, g: g, seen: map[string]int{}}
+		c := &c06ctx{r: r, g: g, seen: map[string]int{}, guard: guard}
 		wg.Add(1)
 		go func(w int) {
 			defer wg.Done()
